@@ -144,6 +144,15 @@ def gen_cases(rec, rng, tier):
     yield {'cls': 'self_loop_at_q0', 'ref1': C, 'ref2': fag.rename(C, {'x': 'u', 'y': 'v'})}
     yield {'cls': 'sigma_empty', 'ref1': fa.make(['x'], '', [], 'x', ['x']), 'ref2': fa.make(['y', 'z'], '', [], 'y', ['y'])}
     yield {'cls': 'sigma_empty', 'ref1': fa.make(['x'], '', [], 'x', ['x']), 'ref2': fa.make(['y'], '', [], 'y', [])}
+    # beyond the small scopes: mid-size and (few) large DFAs whose states are all reachable
+    for n in ((9, 10, 11, 17, 33, 64, 130, 258, 300, 400) if thorough else ((9, 11, 33) if rec.shard % 2 else (10, 17, 300))):
+        k = rng.choice([1, 2, 2, 4]) if n < 100 else 2
+        R = fag.random_connected_dfa(rng, n, k, p_final=0.4)
+        ren = fag.random_renaming(rng, R) if n <= 26 else fag.rename(R, {q: 'r%d' % i for i, q in enumerate(reversed(R[0]))})
+        yield {'cls': 'large_renamed_copy', 'ref1': R, 'ref2': ren, 'requery': False}
+        reach = sorted(fa.reachable(ren))
+        s_ = rng.choice(reach)
+        yield {'cls': 'large_one_final_flipped', 'ref1': R, 'ref2': (ren[0], ren[1], ren[2], ren[3], tuple(sorted(set(ren[4]) ^ {s_}))), 'requery': False}
     for _ in range(1200 if thorough else 80):
         k = rng.randint(1, 3)
         n = rng.randint(1, 6)
